@@ -239,6 +239,29 @@ func runC12(c *runCtx) {
 		c.emit(map[string]any{"cmd": "parse", "s": s, "spaces": spacesOf(s), "clean": clean, "lower": lower}, out)
 		c.nontrivial(s)
 	}
+	// (i') at most one sort: every ordered pair of sort values (and some triples), alone and among other
+	// qualifiers, is refused — whatever the first one is, the default included
+	sorts := []string{"id", "id-asc", "id-desc", "creation", "creation-asc", "creation-desc", "edit", "edit-asc", "edit-desc"}
+	for _, s1 := range sorts {
+		for _, s2 := range sorts {
+			for _, form := range []string{"sort:%s sort:%s", "status:open sort:%s label:x sort:%s", "sort:%s word sort:%s", "sort:%s sort:creation sort:%s"} {
+				s := fmt.Sprintf(form, s1, s2)
+				clean, lower := valueTables(s)
+				q, err := query.Parse(s)
+				var out map[string]any
+				if err != nil {
+					out = map[string]any{"err": parseErrClass(err)}
+				} else {
+					out = map[string]any{"ok": queryJSON(q)}
+				}
+				id := c.emit(map[string]any{"cmd": "parse", "s": s, "spaces": spacesOf(s), "clean": clean, "lower": lower}, out)
+				c.count("parse=two-sorts")
+				if err == nil {
+					c.violation(id, "C12/malformed-accepted", fmt.Sprintf("a query with more than one sort was accepted: %q", s), nil)
+				}
+			}
+		}
+	}
 	// (ii) structured queries: round trip through the documented grammar
 	names := []string{"rené", "René Descartes", "descartes", "bob", "B", "user's"}
 	labels := []string{"bug", "good first issue", "prio:high", "étiquette", "a\"b"}
